@@ -1,238 +1,179 @@
 (** Evaluator of the C12 correspondence stream.  A case carries the respond
-    configuration, the observed library answers (oracle), the error tree, a
-    scenario, and the observations of: errors.Is / errors.As, the two real
-    translators, the three real service stacks.  [check] computes
-    (i) model = observation for all of them, (ii) the property's predicates on
-    the observations, (iii) the guards of C12-F1 / C12-F2 on the input. *)
-From HV Require Export Base.Prelude Base.ErrChain C12.Model C12.Proofs.
+    configuration and where it came from (struct / configuration file), the observed
+    library answers (oracle: the translators' own negotiation on a probe, body
+    rendering; what the Accept header admits), the error tree, a scenario (the
+    rule's error handler list / a panic / a failure of the proxy's Finalize), and the
+    observations of: errors.Is for the six classes of the switch / errors.As, the
+    two real translators, the three real service stacks, the challenges handed to
+    the request context, a redirect handler creation probe.
+
+    [check] computes
+    (i)  [corr]: model output = observation, on the projections the property talks
+         about (status, Location, WWW-Authenticate, content type, body presence,
+         "details only inside the body", OK / not OK of the gRPC code);
+    (ii) [prop]: the specification's predicates ([C12.Spec.seen_ok], [same_reply]) on the
+         OBSERVATIONS — no model function is involved;
+    (iii) the guards of C12-F1 / C12-F2 / C12-F4 on the input.
+    [C12.EvalSound.eval_sound]: corr, a sane oracle and no guard imply prop. *)
+From HV Require Export Base.Prelude Base.ErrChain C12.Model C12.Inputs C12.Spec C12.Stack C12.Proofs C12.StackProofs.
 Local Open Scope Z_scope.
 
 (** ** observations as rendered by the Go driver *)
-Inductive omedia := OM (m : option media) | OMOther (s : string).
-Inductive ogcode := OG (g : gcode) | OGOther (s : string).
-(** [oh_wf]: the body (if any) is well-formed for the Content-Type it was sent with
-    (valid JSON / parseable XML / <p>..</p> / anything for text/plain), as judged by the driver *)
-Record ohdrs := { oh_loc : option string; oh_www : option string; oh_ct : omedia; oh_wf : bool }.
+Inductive oobs :=
+| OA (r : reply) (gok : bool)   (* an HTTP response / a DeniedHttpResponse; [gok]: the gRPC status code is OK *)
+| OHard                         (* a panic reached the caller / a gRPC status error (not OK) *)
+| OPos                          (* a positive answer: OkHttpResponse, or a gRPC status error with code OK *)
+| ONotRun                       (* the scenario does not concern this entry point *)
+| OWeird (s : string).
 
-Inductive ohttp :=
-| OHttp (status : Z) (h : ohdrs) (body marker : bool)
-| OAbort                         (* a panic reached the caller of the handler *)
-| OOther (s : string).
-
-Inductive ogrpc :=
-| ODenied (g : ogcode) (status : Z) (h : ohdrs) (body : bool)
-| OStatus (g : ogcode)           (* gRPC status error, no CheckResponse *)
-| OOk (g : ogcode)
-| OGAbort
-| OGOtherKind (s : string).
-
-Inductive oscenario := SError | SHandled (m : mechanism) | SPanic (err_value : bool).
+Inductive oscenario := SFail (hs : list xhandler) | SPanic (err_value : bool) | SProxy (p : pfail).
 
 Record case := {
-  k_cfg : cfg; k_or : oracle; k_err : err; k_sc : oscenario;
-  k_is : list bool; k_as : option (Z * string);
-  k_http : ohttp; k_grpc : ogrpc;
-  k_dec : ohttp; k_prx : ohttp; k_env : ogrpc;
-  k_up : list (string * string);
-  k_mk : Z * bool }.   (* a redirect handler creation probe: the code tried, and whether the real constructor accepted it *)   (* what the mechanism handed to ctx.AddHeaderForUpstream (handled scenarios) *)
+  k_cfg : cfg; k_file : bool; k_or : oracle; k_nv : negview; k_err : err; k_sc : oscenario;
+  k_is : list bool;               (* errors.Is: authn, authz, timeout||comm, arg, norule, redirect *)
+  k_as : option (Z * string);     (* errors.As(&redirectError) *)
+  k_http : oobs; k_grpc : oobs;   (* the two translators on the error value itself *)
+  k_dec : oobs; k_prx : oobs; k_env : oobs;
+  k_up : list string;             (* values handed to ctx.AddHeaderForUpstream("WWW-Authenticate", _) *)
+  k_mk : Z * bool }.              (* redirect handler creation probe: code tried, accepted by the real constructor? *)
 
-Definition to_scenario (s : oscenario) (e : err) : scenario :=
+Definition to_x (s : oscenario) (e : err) : xscenario :=
   match s with
-  | SError => ScError e
-  | SHandled m => ScHandled m e
-  | SPanic true => ScPanic (Some e)
-  | SPanic false => ScPanic None
+  | SFail hs => XFail hs e
+  | SPanic true => XPanic (Some e)
+  | SPanic false => XPanic None
+  | SProxy p => XProxy p
+  end.
+
+Definition seen_of (o : oobs) : seen :=
+  match o with
+  | OA r gok => if gok then SSuccess else SReply r
+  | OHard => SNoResponse
+  | _ => SSuccess
   end.
 
 (** ** correspondence *)
-Definition hdrs_match (m : hdrs) (o : ohdrs) : bool :=
-  option_eqb String.eqb (h_location m) (oh_loc o) && option_eqb String.eqb (h_www m) (oh_www o) &&
-  match oh_ct o with OM x => option_eqb media_eqb (h_ctype m) x | OMOther _ => false end &&
-  oh_wf o.
-
-Definition gcode_match (m : gcode) (o : ogcode) : bool :=
-  match o with OG g => gcode_eqb m g | OGOther _ => false end.
-
-Definition hresp_match (m : hresp) (o : ohttp) : bool :=
-  match m, o with
-  | HResp s h b, OHttp s' h' b' _ => (s =? s') && hdrs_match h h' && Bool.eqb b b'
-  | HPanic _, OAbort => true
+Definition ctype_eqb (a b : ctype) : bool :=
+  match a, b with
+  | CtNone, CtNone => true
+  | CtKnown x, CtKnown y => media_eqb x y
+  | CtOther x, CtOther y => String.eqb x y
   | _, _ => false
   end.
 
-Definition gdenied_match (d : gdenied) (o : ogrpc) : bool :=
-  match o with
-  | ODenied g s h b => gcode_match (g_code d) g && (g_status d =? s) && hdrs_match (g_hdrs d) h && Bool.eqb (g_body d) b
-  | _ => false
-  end.
+(** model reply [m] against observed reply [o]: the model's [r_details] is its [r_body]
+    (a body is where the details are), so "details seen => the model sends a body" *)
+Definition reply_match (m o : reply) : bool :=
+  (r_status m =? r_status o) && option_eqb String.eqb (r_loc m) (r_loc o) &&
+  option_eqb String.eqb (r_www m) (r_www o) && ctype_eqb (r_ct m) (r_ct o) &&
+  Bool.eqb (r_body m) (r_body o) && implb (r_details o) (r_body m) && implb (r_details o) (r_wf o).
 
-Definition ghandle_match (m : option gdenied) (o : ogrpc) : bool :=
-  match m with
-  | Some d => gdenied_match d o
-  | None => match o with OGAbort => true | _ => false end
-  end.
-
-Definition hfinal_match (m : hfinal) (o : ohttp) : bool :=
+Definition seen_match (m : seen) (o : oobs) : bool :=
   match m, o with
-  | HFinal s h b, OHttp s' h' b' _ => (s =? s') && hdrs_match h h' && Bool.eqb b b'
-  | HAbort, OAbort => true
+  | SReply a, OA b false => reply_match a b
+  | SNoResponse, OHard => true
+  | SSuccess, OPos => true
+  | SSuccess, ONotRun => true
   | _, _ => false
   end.
 
-Definition gfinal_match (m : gfinal) (o : ogrpc) : bool :=
-  match m with
-  | GDenied d => gdenied_match d o
-  | GStatusErr g => match o with OStatus g' => gcode_match g g' | _ => false end
-  | GPositive => match o with OOk _ => true | _ => false end
-  end.
-
-Definition targets : list target :=
-  [TKind KAuthentication; TKind KAuthorization; TKind KCommunication; TKind KTimeout; TKind KArgument;
-   TKind KConfiguration; TKind KInternal; TKind KNoRule; TRedirect; TEval].
+Definition classes6 (e : err) : list bool :=
+  [is_ (TKind KAuthentication) e; is_ (TKind KAuthorization) e;
+   is_ (TKind KTimeout) e || is_ (TKind KCommunication) e;
+   is_ (TKind KArgument) e; is_ (TKind KNoRule) e; is_ TRedirect e].
 
 Definition as_eqb (a b : option (Z * string)) : bool :=
   option_eqb (fun x y => (fst x =? fst y) && String.eqb (snd x) (snd y)) a b.
 
-Definition pair_eqb (a b : string * string) : bool := String.eqb (fst a) (fst b) && String.eqb (snd a) (snd b).
+(** a redirect handler the real constructor accepts answers with a valid status that is not a success status *)
+Definition mk_ok (p : Z * bool) : bool :=
+  implb (snd p) (valid_code (redirect_status (fst p)) && negb (success_like (redirect_status (fst p)))).
 
-Definition model_up (s : oscenario) (e : err) : list (string * string) :=
-  match s with SHandled m => hd_upstream (mech_exec m e) | _ => [] end.
-
-Definition corr (fixed : bool) (k : case) : bool :=
-  let c := k_cfg k in let o := k_or k in let e := k_err k in
-  let sc := to_scenario (k_sc k) e in
-  list_eqb pair_eqb (model_up (k_sc k) e) (k_up k) &&
-  Bool.eqb (match create_redirect (fst (k_mk k)) (Some "x"%string) with Some _ => true | None => false end) (snd (k_mk k)) &&
-  match k_sc k with SHandled (MRedirect code to) => redirect_code_ok code | _ => true end &&
-  list_eqb Bool.eqb (map (fun t => is_ t e) targets) (k_is k) &&
+Definition corr (fx : fixes) (k : case) : bool :=
+  let c := loaded fx (k_file k) (k_cfg k) in let o := k_or k in let e := k_err k in
+  let sc := to_x (k_sc k) e in
+  list_eqb Bool.eqb (classes6 e) (k_is k) &&
   as_eqb (as_redirect e) (k_as k) &&
-  hresp_match (http_handle c o e no_hdrs) (k_http k) &&
-  ghandle_match (grpc_handle c o e) (k_grpc k) &&
-  hfinal_match (http_respond_f fixed c o sc) (k_dec k) &&
-  hfinal_match (http_respond_f fixed c o sc) (k_prx k) &&
-  gfinal_match (grpc_respond_f fixed c o sc) (k_env k).
+  mk_ok (k_mk k) &&
+  list_eqb String.eqb (x_challenges sc) (k_up k) &&
+  seen_match (seen_of_hresp (http_handle c o e no_hdrs)) (k_http k) &&
+  seen_match (seen_of_ghandle (grpc_handle c o e)) (k_grpc k) &&
+  seen_match (seen_of_hfinal (entry_http fx false (k_file k) (k_cfg k) o sc)) (k_dec k) &&
+  seen_match (seen_of_hfinal (entry_http fx true (k_file k) (k_cfg k) o sc)) (k_prx k) &&
+  seen_match (seen_of_gfinal (entry_grpc fx (k_file k) (k_cfg k) o sc)) (k_env k).
 
-(** ** the property on the observations *)
-
-Definition overrides_not_success_b (c : cfg) : bool :=
-  negb (success_like (ov_authn c)) && negb (success_like (ov_authz c)) && negb (success_like (ov_comm c)) &&
-  negb (success_like (ov_precond c)) && negb (success_like (ov_norule c)) && negb (success_like (ov_internal c)).
+(** ** the property on the observations (specification only) *)
 
 Definition redirects_not_success_b (e : err) : bool :=
   forallb (fun z => negb (success_like z)) (redirect_codes e).
 
-(** an HTTP answer to failure [e]: the status of its kind (or its override), the
-    Location of a redirect, no success status (under the hypotheses), a body
-    only if verbose and only in the negotiated content type *)
-Definition http_answer_ok (c : cfg) (o : oracle) (e : err) (r : ohttp) : bool :=
-  match r with
-  | OHttp s h b _ =>
-      (s =? spec_status c e) &&
-      option_eqb String.eqb (oh_loc h) (spec_location e) &&
-      (if overrides_not_success_b c && redirects_not_success_b e then negb (success_like s) else true) &&
-      (if b then c_verbose c else true) &&
-      match oh_ct h with
-      | OM None => negb b
-      | OM (Some m) => c_verbose c && b && option_eqb media_eqb (o_neg_http o) (Some m)
-      | OMOther _ => false
-      end && oh_wf h
-  | _ => false
+Definition obs_ok (w : waiver) (c : cfg) (nv : negview) (hyp : bool) (d : demand) (o : oobs) : bool :=
+  match o with
+  | ONotRun => true
+  | OWeird _ => false
+  | _ => seen_ok_w w c nv hyp d (seen_of o)
   end.
 
-Definition grpc_answer_ok (c : cfg) (o : oracle) (e : err) (r : ogrpc) : bool :=
-  match r with
-  | ODenied g s h b =>
-      (s =? spec_status c e) && gcode_match (spec_gcode (spec_class e)) g &&
-      option_eqb String.eqb (oh_loc h) (spec_location e) &&
-      (if overrides_not_success_b c && redirects_not_success_b e then negb (success_like s) else true) &&
-      (if b then c_verbose c else true) &&
-      match oh_ct h with
-      | OM None => negb b
-      | OM (Some m) => c_verbose c &&
-                       match o_neg_grpc o with Some m' => media_eqb m m' | None => media_eqb m Html end
-      | OMOther _ => false
-      end && oh_wf h
-  | _ => false
-  end.
-
-(** "identically by the HTTP services and the Envoy gRPC service" *)
-Definition same_answer (h : ohttp) (g : ogrpc) : bool :=
-  match h, g with
-  | OHttp s hh _ _, ODenied _ s' gh _ => (s =? s') && option_eqb String.eqb (oh_loc hh) (oh_loc gh)
-  | _, _ => false
-  end.
-
-(** the failure a client is to be told about after an error handler ran (spec level) *)
-Definition told (m : mechanism) (cause : err) : err :=
-  match m with
-  | MDefault => cause
-  | MRedirect code (Some url) => Redirect (redirect_status code) url
-  | MRedirect _ None => Sentinel KInternal
-  | MWWW _ => Sentinel KAuthentication
-  end.
-
-Definition demanded_headers_b (m : mechanism) (h : ohdrs) : bool :=
-  match m with
-  | MWWW realm => option_eqb String.eqb (oh_www h) (Some ("Basic realm=" ++ effective_realm realm)%string)
-  | MRedirect _ (Some url) => option_eqb String.eqb (oh_loc h) (Some url)
-  | _ => true
-  end.
-
-Definition ohttp_hdrs_ok (f : ohdrs -> bool) (r : ohttp) : bool :=
-  match r with OHttp _ h _ _ => f h | _ => false end.
-Definition ogrpc_hdrs_ok (f : ohdrs -> bool) (r : ogrpc) : bool :=
-  match r with ODenied _ _ h _ => f h | _ => false end.
-
-Definition prop (k : case) : bool :=
-  let c := k_cfg k in let o := k_or k in let e := k_err k in
+Definition prop_w (w : waiver) (k : case) : bool :=
+  let c := k_cfg k in let nv := k_nv k in let e := k_err k in
+  let sc := to_x (k_sc k) e in
+  (* the translators negotiate a type the Accept header admits *)
+  oracle_ok nv (k_or k) &&
   (* the translators on the error value itself *)
-  http_answer_ok c o e (k_http k) && grpc_answer_ok c o e (k_grpc k) && same_answer (k_http k) (k_grpc k) &&
-  (* a redirect handler the real constructor accepts never answers with a success status *)
-  (if snd (k_mk k) then negb (success_like (redirect_status (fst (k_mk k)))) else true) &&
+  (let dT := {| d_classes := [spec_class e]; d_realm := None; d_hard := false |} in
+   let hypT := ov_not_success_b c && redirects_not_success_b e in
+   obs_ok w c nv hypT dT (k_http k) && obs_ok w c nv hypT dT (k_grpc k) &&
+   (w_status w || same_reply (seen_of (k_http k)) (seen_of (k_grpc k)))) &&
+  mk_ok (k_mk k) &&
   (* through the three entry points *)
-  match k_sc k with
-  | SError =>
-      http_answer_ok c o e (k_dec k) && http_answer_ok c o e (k_prx k) && grpc_answer_ok c o e (k_env k)
-  | SHandled m =>
-      let e' := told m e in
-      http_answer_ok c o e' (k_dec k) && http_answer_ok c o e' (k_prx k) && grpc_answer_ok c o e' (k_env k) &&
-      ohttp_hdrs_ok (demanded_headers_b m) (k_dec k) && ohttp_hdrs_ok (demanded_headers_b m) (k_prx k) &&
-      ogrpc_hdrs_ok (demanded_headers_b m) (k_env k) &&
-      (* the challenge the www_authenticate handler produced names the configured realm *)
-      match m with
-      | MWWW realm => list_eqb pair_eqb (k_up k) [("WWW-Authenticate"%string, ("Basic realm=" ++ effective_realm realm)%string)]
-      | _ => is_nil (k_up k)
-      end
-  | SPanic b =>
-      let e' := recovered (if b then Some e else None) in
-      http_answer_ok c o e' (k_dec k) && http_answer_ok c o e' (k_prx k) &&
-      match k_env k with OStatus (OG GInternal) => true | _ => false end
-  end.
+  (let d := demand_of sc in let hyp := hyp_never_success c sc in
+   obs_ok w c nv hyp d (k_dec k) && obs_ok w c nv hyp d (k_prx k) && obs_ok w c nv hyp d (k_env k) &&
+   (w_status w ||
+    same_reply (seen_of (k_dec k)) (seen_of (k_env k)) && same_reply (seen_of (k_prx k)) (seen_of (k_env k)) &&
+    same_reply (seen_of (k_dec k)) (seen_of (k_prx k))) &&
+   (* the challenge a www_authenticate handler produces names the configured realm *)
+   match d_realm d with Some r => existsb (contains r) (k_up k) | None => true end).
+
+Definition prop (k : case) : bool := prop_w no_waiver k.
 
 (** ** guards of the recorded findings on the input *)
-Definition g_F1 (k : case) : bool :=
-  match k_sc k with SHandled m => guard_F1 m | _ => false end.
+Definition g_F1 (fx : fixes) (k : case) : bool := xguard_F1 fx (to_x (k_sc k) (k_err k)).
 
-Definition g_F2 (k : case) : bool :=
-  let c := k_cfg k in let e := k_err k in
-  guard_F2 c e ||
-  match k_sc k with
-  | SError => false
-  | SHandled m => guard_F2 c (told m e)
-  | SPanic b => guard_F2 c (recovered (if b then Some e else None))
-  end.
+Definition g_F2 (fx : fixes) (k : case) : bool :=
+  let c := loaded fx (k_file k) (k_cfg k) in
+  guard_F2 c (k_err k) || xguard_F2 c (to_x (k_sc k) (k_err k)).
 
-(** [impl_fixed]: which variant the implementation is expected to be with respect
-    to finding C12-F1 (true once fixes/C12-F1.diff is applied as a fix: commit) *)
-Definition check (impl_fixed : bool) (k : case) : verdict :=
-  {| v_corr := corr impl_fixed k; v_prop := prop k;
-     v_guards := guards [(1, g_F1 k && negb impl_fixed); (2, g_F2 k)] |}.
+Definition g_F4 (fx : fixes) (k : case) : bool :=
+  xguard_F4 fx (k_file k) (k_cfg k) [spec_class (k_err k)] ||
+  xguard_F4 fx (k_file k) (k_cfg k) (d_classes (demand_of (to_x (k_sc k) (k_err k)))).
+
+(** [fx]: which repairs the implementation under test is expected to contain *)
+(** the clauses the open findings whose guards fire are known to break on this input *)
+Definition waived (fx : fixes) (k : case) : waiver :=
+  {| w_status := g_F2 fx k || g_F4 fx k; w_www := g_F1 fx k |}.
+
+(** [v_prop] is the full property predicate on the observations.  Only when the implementation
+    deviates from the model ON AN INPUT OF AN OPEN FINDING (where the full predicate is false
+    because of the recorded defect and so carries no signal) the remaining clauses decide: a change
+    that breaks none of them ends as "correspondence differs, property holds" (search, DESIGN 4
+    row 6), one that breaks another clause as a VIOLATION with this input.  When the
+    correspondence holds, [v_prop] is the full predicate (so the finding is reported as KNOWN). *)
+Definition check (fx : fixes) (k : case) : verdict :=
+  let co := corr fx k in
+  let any := g_F1 fx k || g_F2 fx k || g_F4 fx k in
+  {| v_corr := co;
+     v_prop := prop k || (negb co && any && prop_w (waived fx k) k);
+     v_guards := guards [(1, g_F1 fx k); (2, g_F2 fx k); (4, g_F4 fx k)] |}.
 
 (* constructors with short names for the generated case files *)
+Definition mkfx a b := {| fx1 := a; fx4 := b |}.
 Definition mkcfg v a z m p n i :=
   {| c_verbose := v; ov_authn := a; ov_authz := z; ov_comm := m; ov_precond := p; ov_norule := n; ov_internal := i |}.
 Definition mkor h g j x p := {| o_neg_http := h; o_neg_grpc := g; o_json_ne := j; o_xml_ne := x; o_plain_ne := p |}.
-Definition hd l w c f := {| oh_loc := l; oh_www := w; oh_ct := c; oh_wf := f |}.
-Definition mkcase c o e s i a h g d p v u m :=
-  {| k_cfg := c; k_or := o; k_err := e; k_sc := s; k_is := i; k_as := a; k_http := h; k_grpc := g;
+Definition mknv f a o := {| nv_free := f; nv_allowed := a; nv_other := o |}.
+Definition xh a m w := {| x_applies := a; x_mech := m; x_conf := w |}.
+Definition mkr s l w c b d f :=
+  {| r_status := s; r_loc := l; r_www := w; r_ct := c; r_body := b; r_details := d; r_wf := f |}.
+Definition mkcase c f o nv e s i a h g d p v u m :=
+  {| k_cfg := c; k_file := f; k_or := o; k_nv := nv; k_err := e; k_sc := s; k_is := i; k_as := a; k_http := h; k_grpc := g;
      k_dec := d; k_prx := p; k_env := v; k_up := u; k_mk := m |}.
